@@ -431,7 +431,15 @@ bool PedersenCommitmentScheme::TestMembership
 	(mpz_srcptr c) const
 {
 	if ((mpz_cmp_ui(c, 0L) > 0) && (mpz_cmp(c, p) < 0))
-		return true;
+	{
+		// check whether $c$ has order $q$, i.e. lies in the subgroup
+		mpz_t foo;
+		mpz_init(foo);
+		mpz_powm(foo, c, q, p);
+		bool member = (mpz_cmp_ui(foo, 1L) == 0);
+		mpz_clear(foo);
+		return member;
+	}
 	else
 		return false;
 }
